@@ -31,3 +31,10 @@ package commission
 //@   loop 1 invariant bounds: -1 <= rangeindex && (rangeindex < len(price.Votes) || (rangeindex == -1 && len(price.Votes) == 0))
 //@   loop 1 invariant none: forall b int :: 0 <= b && b <= rangeindex ==> price.Votes[b] != pubkey
 //@   modifies mapof(c.list)
+
+//@ # ASSUMED: the current price table (lazily decoded); all entries are present and non-negative
+//@ ghost commissionCache() int
+//@ func (*Commission).GetCommissions
+//@   trusted
+//@   ensures result != nil && result.PayloadByte != nil && result.FailedTx != nil && result.PayloadByte.val >= 0 && result.FailedTx.val >= 0
+//@   modifies commissionCache
